@@ -380,7 +380,7 @@ func runC12(c *Ctx) {
 				if stripConv(resolveCell(a.Val)) == ssa.Value(fn.Params[1]) {
 					// through p.read (not p.write)
 					if fa, isFA := a.Addr.X.(*ssa.UnOp); isFA {
-						if f := loadedField(fa); f != nil && f.Name() == "read" {
+						if f := loadedField(fa); f != nil && f == p.Field("multicast", "UDPPeer", "read") {
 							ok = true
 						}
 					}
